@@ -1,6 +1,19 @@
 import MtxVerif.Model.C19
 open MtxVerif MtxVerif.PathSM
 
+/-- a held request is answered 'timed out' when the START timeout expires: compare the elapsed fake time
+reported by the implementation with the one expected from the configured start timeout -/
+def timeoutAt (sp : C19.Spec) (model impl : String) : C19.Spec :=
+  let it := words impl
+  let mt := words model
+  if it.any (fun t => t.endsWith "=timeout") then
+    match it.findSome? (Drv.tokNat "after="), mt.findSome? (Drv.tokNat "after=") with
+    | some a, some b =>
+      if a != b then sp.fail s!"held request(s) answered 'timed out' after {a} ms; the start timeout expires after {b} ms"
+      else sp
+    | _, _ => sp
+  else sp
+
 structure D where
   m : Drv.M := {}
   sp : C19.Spec := {}
@@ -19,7 +32,7 @@ def step (d : D) (op impl : String) : D × DrvOut :=
     let kind := if armedReady then "ready" else if armedClose then "notready" else "none"
     let ans := if kind == "ready" then ans ++ " src=term" else ans
     let ans := ans ++ s!" race={kind} loop=ok"
-    let sp' := C19.specOp d.sp d.m.st .tick impl
+    let sp' := timeoutAt (C19.specOp d.sp d.m.st .tick impl) ans impl
     let sp' := if (Drv.implToks impl).contains "loop=dead" then
         sp'.fail "the path loop does not answer any more after the source reported ready/not-ready while its handler was being stopped (Handler.Stop never returned)"
       else sp'
@@ -27,6 +40,7 @@ def step (d : D) (op impl : String) : D × DrvOut :=
   let o := Drv.parseOp op
   let (m', _, ans) := Drv.exec d.m o
   let sp' := C19.specOp d.sp d.m.st o impl
+  let sp' := match o with | .tick => timeoutAt sp' ans impl | _ => sp'
   ({ m := m', sp := sp' }, { model := ans, spec := sp'.verdict })
 
 def main (args : List String) : IO UInt32 := runDriver args ({} : D) step
